@@ -16,7 +16,7 @@ class).
 * `--hash n`: `HashClassifier(n)` — `crc32.ChecksumIEEE(sequence) % n`.
 
 `WriterDispatcher` names the file of a class `fmt.Sprintf(pattern, key)` (+ `.gz` when the output is
-compressed and the name does not end with `.gz`), inside the directory `directory` when it is not
+compressed and the pattern does not end with `.gz`), inside the directory `directory` when it is not
 empty.  The pattern is modelled in the shape `prefix%ssuffix` (one `%s` verb, no other `%`:
 `CLIFileNamePattern` refuses a pattern without verb); `filepath.Join` is `dir/name` (the components
 are plain names: no `/`, not `.` or `..` — the theorems say where that matters).
@@ -118,11 +118,16 @@ def gzSuffix : List Char := ['.', 'g', 'z']
 /-- `[]rune` view of `strings.HasSuffix` -/
 def endsWithL (l suf : List Char) : Bool := (l.drop (l.length - suf.length)) == suf && suf.length ≤ l.length
 
-/-- `WriterDispatcher`: `name := Sprintf(pattern, key)`; `.gz` appended when compressed and not
-already there; `filepath.Join(directory, name)` when the directory is not empty -/
+/-- the name pattern `prefix%ssuffix` -/
+def patternL (pre suf : List Char) : List Char := pre ++ '%' :: 's' :: suf
+
+/-- `WriterDispatcher`: `name := Sprintf(pattern, key)`; `.gz` appended when compressed and the
+*pattern* does not end with it (repaired: the unrepaired code looked at the formatted name, so that
+with `-Z -p a%s` the classes `x` and `x.gz` shared the file `ax.gz` and one of them was lost);
+`filepath.Join(directory, name)` when the directory is not empty -/
 def fileNameL (pre suf : List Char) (compressed : Bool) (key dir : List Char) : List Char :=
   let name := pre ++ key ++ suf
-  let name := if compressed && !endsWithL name gzSuffix then name ++ gzSuffix else name
+  let name := if compressed && !endsWithL (patternL pre suf) gzSuffix then name ++ gzSuffix else name
   if dir ≠ [] then dir ++ '/' :: name else name
 
 def fileName (o : DistOpts) (kd : String × String) : String :=
